@@ -136,13 +136,6 @@ class DomainPredicates:
                         for lit in literal_predicate(cond.literal, SIGNS):
                             self._not_static.add(lit.pred)
 
-        ### the rules of an input predicate do not describe its domain, the instance may add facts
-        for stm in prg:
-            for spred in headderivable_predicates(stm):
-                if spred.pred in self.input_predicates:
-                    self._not_static.add(spred.pred)
-                    self._too_complex.add(spred.pred)
-
         graph = _create_graph_from_prg(prg, SIGNS)
         cycle_free_pdg = graph.copy()
         ### remove predicates in cycles
@@ -159,6 +152,9 @@ class DomainPredicates:
         for node in nx.topological_sort(cycle_free_pdg):  # type: ignore
             if any(map(lambda pre: pre in self._not_static, graph.predecessors(node))):
                 self._not_static.add(node)
+
+        ### the rules of a non static input predicate do not describe its domain, the instance may add facts
+        self._too_complex.update(self._not_static.intersection(self.input_predicates))
 
     def is_static(self, pred: Predicate) -> bool:
         """
